@@ -608,6 +608,10 @@ def type_name(v):
 
 def type_matches(v, t):
     from .interp import ExcVal, exc_isinstance
+    from .values import NpInt
+
+    if isinstance(v, NpInt):
+        return isinstance(t, Native) and t.type_tag in ("object", "np.number", "np.integer")
 
     if isinstance(t, ClassVal):
         if isinstance(v, Obj):
